@@ -118,7 +118,8 @@ def selected_matches(answers, rec, fraction):
     k, m = int(pts[0][0].split()[1]), int(pts[0][0].split()[3])
     if m != M:
         return None
-    return list(list(itertools.combinations(range(M), k))[pts[0][2]])
+    from mc.engine.choices import nth_combination
+    return list(nth_combination(M, k, pts[0][2]))
 
 
 def case_dump(c, sc):
